@@ -48,7 +48,8 @@ KCode(k) == CASE k = "mulmm" -> 1 [] k = "mulTm" -> 2 [] k = "mulmT" -> 3 [] k =
    [] k = "triL" -> 14 [] k = "triL1" -> 15 [] k = "triL2" -> 16 [] k = "triU" -> 17 [] k = "triU1" -> 18 [] k = "triU2" -> 19
 Init == kern = "none" /\ dims = <<0, 0, 0, 0>>
 \* a few large shapes as well (word-wise or unrolled loops show only beyond small dimensions)
-BigDims == {<<9, 8, 7>>, <<1, 17, 2>>, <<16, 3, 1>>, <<2, 1, 17>>, <<17, 17, 1>>, <<13, 1, 1>>}
+BigDims == {<<9, 8, 7>>, <<1, 17, 2>>, <<16, 3, 1>>, <<2, 1, 17>>, <<17, 17, 1>>, <<13, 1, 1>>,
+            <<3, 40, 1>>, <<40, 3, 1>>, <<33, 34, 1>>, <<2, 40, 3>>, <<35, 2, 2>>, <<2, 2, 37>>, <<36, 1, 1>>}
 DimTriples == ((1..D) \X (1..D) \X (1..D)) \cup BigDims
 Next == kern = "none" /\ \E k \in Kernels, t \in DimTriples : LET a == t[1]  b == t[2]  c == t[3] IN
           /\ (k \notin {"mulmm", "mulTm", "mulmT", "mulTT"} => c = 1)
